@@ -328,6 +328,20 @@ impl Dec {
             Dec { pt: ip.len() as i64 - p, ds: ip }
         }
     }
+    /// exactly one half of a unit of the n-th significant digit remains after it
+    fn is_tie_sig(&self, n: i64) -> bool {
+        if self.is_zero() || n < 0 { return false; }
+        let i = self.ds.iter().position(|d| *d != 0).unwrap() + n as usize;
+        i < self.ds.len() && self.ds[i] == 5 && self.ds[i + 1..].iter().all(|d| *d == 0)
+    }
+    /// the first n significant digits, the rest dropped (what rounding a half downwards gives)
+    fn trunc_sig(&self, n: i64) -> Dec {
+        if self.is_zero() || n < 0 { return self.clone(); }
+        let i = self.ds.iter().position(|d| *d != 0).unwrap() + n as usize;
+        let mut ds = self.ds.clone();
+        for d in ds.iter_mut().skip(i) { *d = 0; }
+        Dec { ds, pt: self.pt }
+    }
     /// mantissa in [1,10) and decimal exponent
     fn normalise(&self) -> (Dec, i64) {
         let z = self.ds.iter().position(|d| *d != 0).unwrap();
@@ -535,7 +549,7 @@ fn values(rng: &mut Rng, thorough: bool) -> Vec<f64> {
     for s in ["0", "1", "5", "9", "10", "25", "15", "2.5", "1234.5", "2.675", "0.125", "0.5", "9.5", "99.5", "999.5", "0.96", "0.996",
               "0.9996", "9996", "99.96", "0.0496", "0.46", "0.006", "0.01", "0.1", "0.05", "0.005", "0.285", "1.005", "1234567.891",
               "12345.6789", "1e100", "1e99", "123", "1234", "12345", "123456", "1234567", "12345678", "1234567890", "0.07", "0.57",
-              "999999.5", "999.9996", "0.001", "0.00012345", "1.5", "3", "12", "100", "1000", "1e15", "1e16", "1e21", "1e22", "1.7e23"] {
+              "999999.5", "999.9996", "0.355", "355", "0.001", "0.00012345", "1.5", "3", "12", "100", "1000", "1e15", "1e16", "1e21", "1e22", "1.7e23"] {
         v.push(p(s));
     }
     // integers near 2^53 and 15/16/17-digit decimals
@@ -549,7 +563,7 @@ fn values(rng: &mut Rng, thorough: bool) -> Vec<f64> {
     // halves and quarter ties at every precision 0..6
     for prec in 0..=6usize {
         for k in ["0", "1", "2", "7", "12", "99", "1234", "999999"] {
-            for tail in ["5", "25", "75", "49", "51", "4999999", "5000001"] {
+            for tail in ["5", "25", "75", "49", "51", "45", "55", "4999999", "5000001"] {
                 // k with the decimal point shifted prec places left, then the tail
                 let kk = format!("{:0>width$}", k, width = prec + 1);
                 let (a, b) = kk.split_at(kk.len() - prec);
@@ -692,8 +706,15 @@ fn run_case(cx: &mut Ctx, v: f64, code: &str, spec: Option<&[Sect]>, li: usize) 
         m.ds[0] == 1 && m.ds[1..].iter().all(|d| *d == 0) && format!("{:.16e}", val.abs()).starts_with('9')
     };
     // the code first rounds to p + (integer digits of the scaled value) significant digits
-    let pre = sd.x.round_sig(p + sd.x.int_len().max(1));
-    let double = if sd.x.is_zero() { false } else if use_sect.sci { !pre.is_zero() && pre.normalise().0.is_tie(p) && !sd.tie } else { pre.is_tie(p) && !sd.tie };
+    let nsig = p + sd.x.int_len().max(1);
+    // ... half-to-even on the binary value: when that first rounding is itself an exact decimal half
+    // (0.355 at 2 digits) it may go down (0.35) as well as up (0.36); both are candidates
+    let mut pres = vec![sd.x.round_sig(nsig)];
+    if sd.x.is_tie_sig(nsig) { pres.push(sd.x.trunc_sig(nsig)); }
+    // double rounding: the first rounding leaves an exact half at the displayed place that the value itself does not have
+    let double = !sd.x.is_zero() && !sd.tie && pres.iter().any(|pre| {
+        if use_sect.sci { !pre.is_zero() && pre.normalise().0.is_tie(p) } else { pre.is_tie(p) }
+    });
     let rounding_class = if overflow { Some("format_scaled_value_overflows") }
         else if subnormal { Some("format_subnormal_scientific") }
         else if sd.tie { Some("format_tie_rounds_to_even") }
